@@ -181,6 +181,15 @@ class Evaluator:
                 else:
                     raise Unsupported("f-string format")
             return "".join(out)
+        if isinstance(node, (ast.GeneratorExp, ast.ListComp)) and len(node.generators) == 1 and not node.generators[0].is_async:
+            g = node.generators[0]
+            out = []
+            for v in self.ev(g.iter, env):
+                env2 = dict(env)
+                self.assign(g.target, v, env2)
+                if all(self.ev(c, env2) for c in g.ifs):
+                    out.append(self.ev(node.elt, env2))
+            return out
         if isinstance(node, ast.Call):
             return self.call(node, env)
         if isinstance(node, ast.Attribute):
@@ -205,6 +214,10 @@ class Evaluator:
                 return self.g[name](*args, **kw)
             if name == "len":
                 return len(args[0])
+            if name == "abs":
+                if isinstance(args[0], Obj):
+                    return args[0].get(self, "__abs__")()
+                return abs(args[0])
             if name == "int":
                 try:
                     return int(*args)
